@@ -1,6 +1,7 @@
 package main
 
 import (
+	"context"
 	"fmt"
 	"math"
 	"strconv"
@@ -194,9 +195,67 @@ func (e *sbfEp) op(c *Ctx, line string) {
 		}
 		e.lastAdd = map[string]int64{}
 		c.Emit(line, errClass(err)+logText(e.srv.takeLog(), e.name), false)
+	case "overlap":
+		a, b := splitSlash(w[1:])
+		expA, runA, keysA := e.sub(a)
+		expB, runB, keysB := e.sub(b)
+		before := map[string]int64{}
+		for k, v := range e.lastAdd {
+			before[k] = v
+		}
+		ansA, ansB, log := runOverlap(e.srv, expA, expB, runA, runB)
+		checkArgv(c, "sbloom", line, log)
+		for _, x := range []struct {
+			w, keys []string
+			ans     string
+		}{{b, keysB, ansB}, {a, keysA, ansA}} {
+			if x.w[0] == "add" {
+				if x.ans == "ok" {
+					for _, k := range x.keys {
+						e.lastAdd[k] = e.now
+					}
+				}
+				continue
+			}
+			for i, k := range x.keys {
+				if t, ok := before[k]; ok && e.now <= t+e.half && len(x.ans) == len(x.keys) && x.ans[i] != '1' {
+					c.Fail("sbloom:false-negative:overlapping-calls", line, fmt.Sprintf("overlapping Exists reports item #%d added at %d as absent at %d", i, t, e.now))
+				}
+			}
+		}
+		c.Hit("overlap:" + a[0] + "/" + b[0])
+		c.Emit(line, ansA+logText(logOf(log, 1), e.name)+" | "+ansB+logText(logOf(log, 2), e.name), true)
 	default:
 		c.Emit(line, "bad-op", false)
 	}
+}
+
+func (e *sbfEp) sub(w []string) (expect []string, run func(ctx context.Context) string, keys []string) {
+	for _, x := range w[1:] {
+		keys = append(keys, parseItemWord(x).key)
+	}
+	if len(keys) > 0 {
+		expect = append([]string{fmt.Sprint(e.k), fmt.Sprint(e.half)}, idxStrings(keys, e.m, e.k)...)
+	}
+	if w[0] == "add" {
+		run = func(ctx context.Context) string {
+			return guard(func() string { return errClass(e.bf.AddMulti(ctx, keys)) })
+		}
+	} else {
+		run = func(ctx context.Context) string {
+			return guard(func() string {
+				r, err := e.bf.ExistsMulti(ctx, keys)
+				if err != nil {
+					return errClass(err)
+				}
+				if r == nil {
+					return "nil"
+				}
+				return boolsText(r)
+			})
+		}
+	}
+	return expect, run, keys
 }
 
 func runSBloom(c *Ctx) {
@@ -326,5 +385,35 @@ func runSBloom(c *Ctx) {
 			}
 		}
 		ep.op(c, "s.state")
+	}
+	// (3) overlapping calls on one filter value (gated), same server time
+	for epi := 0; epi < max(4, c.N/150); epi++ {
+		half := int64(500)
+		now := int64(1_700_000_000_000 + c.Rng.IntN(100000))
+		probe, err := rueidisprob.NewSlidingBloomFilter(&fakeClient{srv: newFakeServer(func() int64 { return 0 })}, "bf", 200, 0.01, time.Second)
+		if err != nil {
+			continue
+		}
+		m, k, _ := rueidisprob.VerifParams(probe)
+		ep.op(c, fmt.Sprintf("reset %d %d %d ro=%d n=200 rate=%s now=%d", m, k, half, epi%2, rateBits(0.01), now))
+		pool := make([]item, 12)
+		for i := range pool {
+			pool[i] = mkItem(fmt.Sprintf("os%d-%d", epi, i))
+		}
+		ep.op(c, "add "+pool[0].word())
+		ep.op(c, "overlap add "+pool[1].word()+" / add "+pool[2].word()+" "+pool[3].word())
+		now += 100
+		ep.op(c, fmt.Sprintf("now %d", now))
+		ep.op(c, "overlap add "+pool[4].word()+" "+pool[5].word()+" / exists "+pool[0].word())
+		ep.op(c, "overlap exists "+pool[1].word()+" / add "+pool[6].word())
+		now += 350
+		ep.op(c, fmt.Sprintf("now %d", now))
+		ep.op(c, "overlap add "+pool[7].word()+" / add "+pool[8].word())
+		for _, it := range pool {
+			if t, ok := ep.lastAdd[it.key]; ok && now <= t+half {
+				ep.op(c, "!exists "+it.word())
+				ep.op(c, "exists "+it.word())
+			}
+		}
 	}
 }
